@@ -34,7 +34,7 @@ impl Container {
             .copied()
             .unwrap_or(self.src.len());
 
-        let mut src = &self.src[..end];
+        let mut src = self.src.get(..end).ok_or_else(invalid_landmark_error)?;
 
         read_compression_header(&mut src)
     }
@@ -49,13 +49,22 @@ impl Container {
                 let start = landmarks[i];
                 i += 1;
                 let end = landmarks.get(i).copied().unwrap_or(self.src.len());
-                let mut src = &self.src[start..end];
-                Some(read_slice(&mut src))
+
+                // Landmarks are read from the container header and are not guaranteed to be
+                // ordered or within the container.
+                match self.src.get(start..end) {
+                    Some(mut src) => Some(read_slice(&mut src)),
+                    None => Some(Err(invalid_landmark_error())),
+                }
             } else {
                 None
             }
         })
     }
+}
+
+fn invalid_landmark_error() -> io::Error {
+    io::Error::new(io::ErrorKind::InvalidData, "invalid landmark")
 }
 
 pub fn read_container<R>(reader: &mut R, container: &mut Container) -> io::Result<usize>
